@@ -1159,6 +1159,7 @@ theorem addLink_ok (p p' : Parser) (srcs : List Key) (co : List Bool) (t : Key) 
       resolveSources p.actions srcs co = some ssrc ∧ findParent p.actions t = some ta ∧
       (ta.kind.isSubT = true → ta.dest ≠ t → isStrictPrefix (ta.dest ++ [initArgs]) t = true) ∧
       p' = { actions := if (!ta.kind.isSubT || ta.dest == t) then replaceAction ta ⟨t, .link⟩ p.actions else p.actions,
+             optActs := if (!ta.kind.isSubT || ta.dest == t) then redirectOpts ta ⟨t, .link⟩ p.optActs else p.optActs,
              required := p.required.filter (· != t),
              links := p.links ++ [⟨ssrc, t, fn, if (!ta.kind.isSubT || ta.dest == t) then .plain else .initArg ta.dest.length⟩] } := by
   unfold addLink at h
@@ -1306,9 +1307,10 @@ structure Inv (p : Parser) : Prop where
     (∃ a ∈ p.actions, a.kind.isSubT = true ∧ a.dest = l.target.take n) ∨ (⟨l.target.take n, .link⟩ : Action) ∈ p.actions
   dests : ∀ a ∈ p.actions, a.dest ≠ []
   linkActs : ∀ a ∈ p.actions, a.kind = .link → ∃ l ∈ p.links, l.target = a.dest
+  optOK : ∀ oa ∈ p.optActs, oa.2 ∈ p.actions
 
 theorem Inv.init (p : Parser) (h : p.links = []) (hd : ∀ a ∈ p.actions, a.dest ≠ [])
-    (hl : ∀ a ∈ p.actions, a.kind ≠ .link) : Inv p :=
+    (hl : ∀ a ∈ p.actions, a.kind ≠ .link) (ho : ∀ oa ∈ p.optActs, oa.2 ∈ p.actions) : Inv p :=
   { noChain := by rw [h]; exact List.Pairwise.nil
     noSelf := by rw [h]; intro l hl; cases hl
     wf := by rw [h]; intro l hl; cases hl
@@ -1316,7 +1318,8 @@ theorem Inv.init (p : Parser) (h : p.links = []) (hd : ∀ a ∈ p.actions, a.de
     plainAct := by rw [h]; intro l hl; cases hl
     initAct := by rw [h]; intro l hl; cases hl
     dests := hd
-    linkActs := fun a ha hk => absurd hk (hl a ha) }
+    linkActs := fun a ha hk => absurd hk (hl a ha)
+    optOK := ho }
 
 theorem take_of_append (d r : Key) : (d ++ r).take d.length = d := by simp
 
@@ -1350,7 +1353,7 @@ theorem Inv.step (p p' : Parser) (srcs : List Key) (co : List Bool) (t : Key) (f
     have : t ∈ existingSources p := by
       unfold existingSources; exact List.mem_flatMap.mpr ⟨l, hl, hm⟩
     simp [List.contains_eq_mem, this] at hTS
-  refine ⟨?_, ?_, ?_, ?_, ?_, ?_, ?_, ?_⟩
+  refine ⟨?_, ?_, ?_, ?_, ?_, ?_, ?_, ?_, ?_⟩
   · -- no chains
     simp only []
     rw [List.pairwise_append]
@@ -1460,6 +1463,123 @@ theorem Inv.step (p p' : Parser) (srcs : List Key) (co : List Bool) (t : Key) (f
       · exact ⟨_, List.mem_append_right _ List.mem_cons_self, by rw [e]⟩
       · exact hold _ h'
     · exact hold _ ha
+  · -- no option string reaches an action that is not in the parser any more
+    intro oa hoa
+    simp only [] at hoa ⊢
+    split at hoa
+    · rename_i hrep
+      simp only [hrep, if_true]
+      unfold redirectOpts at hoa
+      obtain ⟨ob, hob, e⟩ := List.mem_map.mp hoa
+      by_cases hb : ob.2 = ta
+      · simp only [hb, if_true] at e
+        rw [← e]
+        exact mem_replaceAction_new ta _ p.actions hta
+      · simp only [hb, if_false] at e
+        rw [← e]
+        exact mem_replaceAction_of_ne ta _ ob.2 p.actions (hi.optOK ob hob) hb
+    · rename_i hrep
+      simp only [hrep]
+      exact hi.optOK oa hoa
+
+/-- one accepted call that replaces the target action `ta`: every option string that reached `ta` now reaches the link
+    action, and no entry of `_option_string_actions` refers to `ta` any more -/
+theorem addLink_redirects (p p' : Parser) (srcs : List Key) (co : List Bool) (t : Key) (fn : Option Nat)
+    (h : addLink p srcs co t fn = .ok p') :
+    ∃ ta, findParent p.actions t = some ta ∧
+      ((!ta.kind.isSubT || ta.dest == t) = true →
+        (∀ o, (o, ta) ∈ p.optActs → (o, (⟨t, .link⟩ : Action)) ∈ p'.optActs) ∧ (∀ oa ∈ p'.optActs, oa.2 ≠ ta)) ∧
+      (∀ o t', (o, (⟨t', .link⟩ : Action)) ∈ p.optActs → (o, (⟨t', .link⟩ : Action)) ∈ p'.optActs) := by
+  obtain ⟨ssrc, ta, _, _, _, _, _, hfp, _, hp'⟩ := addLink_ok p p' srcs co t fn h
+  obtain ⟨_, htk, _, _⟩ := findParent_some p.actions t ta hfp
+  subst hp'
+  refine ⟨ta, hfp, fun hrep => ⟨fun o ho => ?_, fun oa hoa => ?_⟩, fun o t' ho => ?_⟩
+  · simp only [hrep, if_true]
+    unfold redirectOpts
+    exact List.mem_map.mpr ⟨(o, ta), ho, by simp⟩
+  · simp only [hrep, if_true] at hoa
+    unfold redirectOpts at hoa
+    obtain ⟨ob, _, e⟩ := List.mem_map.mp hoa
+    by_cases hb : ob.2 = ta
+    · simp only [hb, if_true] at e
+      rw [← e]
+      intro e'
+      rw [← e'] at htk
+      exact htk rfl
+    · simp only [hb, if_false] at e
+      rw [← e]; exact hb
+  · simp only []
+    split
+    · unfold redirectOpts
+      refine List.mem_map.mpr ⟨(o, ⟨t', .link⟩), ho, ?_⟩
+      have : (⟨t', .link⟩ : Action) ≠ ta := by
+        intro e; rw [← e] at htk; exact htk rfl
+      simp [this]
+    · exact ho
+
+theorem redirectOpts_keys (a b : Action) (opts : List (String × Action)) :
+    (redirectOpts a b opts).map (·.1) = opts.map (·.1) := by
+  unfold redirectOpts
+  rw [List.map_map]
+  apply List.map_congr_left
+  intro oa _
+  by_cases e : oa.2 = a <;> simp [e]
+
+theorem addLink_optKeys (p p' : Parser) (srcs : List Key) (co : List Bool) (t : Key) (fn : Option Nat)
+    (h : addLink p srcs co t fn = .ok p') : p'.optActs.map (·.1) = p.optActs.map (·.1) := by
+  obtain ⟨ssrc, ta, _, _, _, _, _, _, _, hp'⟩ := addLink_ok p p' srcs co t fn h
+  subst hp'
+  simp only []
+  split
+  · exact redirectOpts_keys _ _ _
+  · rfl
+
+theorem addLinks_opts : ∀ (reqs : List LinkReq) (p p' : Parser), addLinks p reqs = .ok p' →
+    p'.optActs.map (·.1) = p.optActs.map (·.1) ∧
+    ∀ o t', (o, (⟨t', .link⟩ : Action)) ∈ p.optActs → (o, (⟨t', .link⟩ : Action)) ∈ p'.optActs
+  | [], p, p', h => by simp only [addLinks] at h; cases h; exact ⟨rfl, fun _ _ h => h⟩
+  | r :: rest, p, p', h => by
+    simp only [addLinks] at h
+    cases h1 : addLink p r.sources r.coerce r.target r.fn with
+    | error e => simp [h1] at h
+    | ok p1 =>
+      simp only [h1] at h
+      obtain ⟨ih1, ih2⟩ := addLinks_opts rest p1 p' h
+      obtain ⟨_, _, _, hpres⟩ := addLink_redirects p p1 _ _ _ _ h1
+      exact ⟨by rw [ih1, addLink_optKeys p p1 _ _ _ _ h1], fun o t' ho => ih2 o t' (hpres o t' ho)⟩
+
+theorem addLinks_append : ∀ (pre : List LinkReq) (r : LinkReq) (post : List LinkReq) (p0 p : Parser),
+    addLinks p0 (pre ++ r :: post) = .ok p →
+    ∃ p1 p2, addLinks p0 pre = .ok p1 ∧ addLink p1 r.sources r.coerce r.target r.fn = .ok p2 ∧ addLinks p2 post = .ok p
+  | [], r, post, p0, p, h => by
+    simp only [List.nil_append, addLinks] at h
+    cases h1 : addLink p0 r.sources r.coerce r.target r.fn with
+    | error e => simp [h1] at h
+    | ok p2 => simp only [h1] at h; exact ⟨p0, p2, rfl, h1, h⟩
+  | q :: pre, r, post, p0, p, h => by
+    simp only [List.cons_append, addLinks] at h
+    cases h1 : addLink p0 q.sources q.coerce q.target q.fn with
+    | error e => simp [h1] at h
+    | ok pa =>
+      simp only [h1] at h
+      obtain ⟨p1, p2, h2, h3, h4⟩ := addLinks_append pre r post pa p h
+      exact ⟨p1, p2, by simp only [addLinks, h1]; exact h2, h3, h4⟩
+
+theorem find_of_nodup_keys : ∀ (opts : List (String × Action)) (o : String) (a : Action),
+    (opts.map (·.1)).Nodup → (o, a) ∈ opts → opts.find? (fun oa => oa.1 == o) = some (o, a)
+  | [], _, _, _, h => by cases h
+  | x :: r, o, a, hn, h => by
+    simp only [List.map_cons, List.nodup_cons] at hn
+    rcases List.mem_cons.mp h with e | h'
+    · subst e; simp [List.find?]
+    · have hne : x.1 ≠ o := by
+        intro e
+        apply hn.1
+        rw [e]
+        exact List.mem_map.mpr ⟨(o, a), h', rfl⟩
+      have hb : (x.1 == o) = false := by simp [hne]
+      simp only [List.find?, hb]
+      exact find_of_nodup_keys r o a hn.2 h'
 
 theorem Inv.steps : ∀ (reqs : List LinkReq) (p p' : Parser), Inv p → addLinks p reqs = .ok p' → Inv p'
   | [], p, p', hi, h => by simp only [addLinks] at h; cases h; exact hi
